@@ -367,6 +367,16 @@ theorem saveScript_fail_shape (chunks : List (List Byte)) (j : Nat) (h : (saveSc
           · rename_i h0 h1 h2 h3 h4
             simp [h0, h1, h2, h3, h4] at h
 
+/-- atomicity at a finer grain than the stdio calls: a crash in the middle of ANY call — a block of a variable line
+    half written, the stdio buffer half flushed — still leaves the save file complete old or complete new, because only
+    the temporary is ever written to -/
+theorem save_atomic_partial (chunks : List (List Byte)) (old : Option (List Byte)) (k : Nat) (c : Call)
+    (d' : List Byte) :
+    (((FS.mk old none).run ((saveScript chunks none).1.take k)).partialStep c d').file = old ∨
+    (((FS.mk old none).run ((saveScript chunks none).1.take k)).partialStep c d').file = some chunks.flatten := by
+  have h := save_atomic chunks old k
+  cases c <;> simpa [FS.partialStep] using h
+
 /-- a save that reports failure leaves no temporary file behind, on every failure path -/
 theorem save_failure_leaves_no_tmp (chunks : List (List Byte)) (old : Option (List Byte)) (j : Nat) :
     (saveScript chunks (some j)).2 = 0 → ((FS.mk old none).run (saveScript chunks (some j)).1).tmp = none := by
@@ -415,6 +425,108 @@ theorem tmpName_ne_file (file : List Byte) (h : file.length ≤ NV.Gen.C16.tmpPr
   simp at this
 
 example : tmpName [97, 46, 111] = [97, 46, 111, 46, 116, 109, 112] := by decide
+
+/-- for EVERY path — also those longer than the `%.Ns` prefix — the buffer does not cut the ".tmp" suffix off -/
+theorem tmpName_eq (file : List Byte) :
+    tmpName file = file.take NV.Gen.C16.tmpPrefixMax ++ [46,116,109,112] := by
+  unfold tmpName
+  apply List.take_of_length_le
+  have := tmp_suffix_fits
+  simp only [List.length_append, List.length_take, List.length_cons, List.length_nil]
+  omega
+
+/-- hence the temporary of ANY save (two objects whose long paths share their first `tmpPrefixMax` bytes share it) is
+    never the save file of any object: save files end in the last byte of SAVE_EXTENSION (regenerated), the
+    temporary in `p` -/
+theorem tmpName_never_a_save_file (file g : List Byte) (hg : g.getLast? = some NV.Gen.C16.saveExt1) :
+    tmpName file ≠ g := by
+  rw [tmpName_eq]
+  intro h
+  rw [← h] at hg
+  simp at hg
+  exact absurd hg (by decide)
+
+
+/-! ## save_object as a whole: dry run, then the call script -/
+
+theorem saveScript_ok_shape (chunks : List (List Byte)) (j : Nat) (h : (saveScript chunks (some j)).2 ≠ 0) :
+    (saveScript chunks (some j)).1 = (saveScript chunks none).1 := by
+  unfold saveScript at h ⊢
+  simp only at h ⊢
+  split at h <;> try (simp at h)
+  split at h <;> try (simp at h)
+  split at h <;> try (simp at h)
+  split at h <;> try (simp at h)
+  split at h <;> try (simp at h)
+  rename_i h0 h1 h2 h3 h4
+  simp [h0, h1, h2, h3, h4]
+
+/-- **Whatever way save_object ends — LPC error ("nested too deep"), failure reported for any call, success — no
+    temporary file is left behind.**  (False before the two temporary-file fixes: header failure, too-deep error.) -/
+theorem saveObject_leaves_no_tmp (F : FloatOps α) (prog : List Byte) (z : Bool) (vars : List (Var α))
+    (fail : Option Nat) (old : Option (List Byte)) :
+    (saveObjectFS F prog z vars fail (FS.mk old none)).1.tmp = none := by
+  unfold saveObjectFS saveObjectScript
+  split
+  · rename_i heq
+    split at heq
+    · rfl
+    · simp at heq
+  · rename_i cs ret heq
+    split at heq
+    · simp at heq
+    · simp only [Option.some.injEq] at heq
+      cases fail with
+      | none =>
+        have := save_success_leaves_no_tmp (headerLine prog :: saveLines F z vars) old
+        rw [heq] at this
+        exact this
+      | some j =>
+        by_cases hr : (saveScript (headerLine prog :: saveLines F z vars) (some j)).2 = 0
+        · have := save_failure_leaves_no_tmp (headerLine prog :: saveLines F z vars) old j hr
+          rw [heq] at this
+          exact this
+        · have h1 := saveScript_ok_shape _ j hr
+          have := save_success_leaves_no_tmp (headerLine prog :: saveLines F z vars) old
+          rw [← h1, heq] at this
+          exact this
+
+/-- the LPC error is raised before the first file-system call: nothing at all has changed -/
+theorem saveObject_error_touches_nothing (F : FloatOps α) (prog : List Byte) (z : Bool) (vars : List (Var α))
+    (fail : Option Nat) (fs : FS) (h : (saveObjectFS F prog z vars fail fs).2 = none) :
+    (saveObjectFS F prog z vars fail fs).1 = fs := by
+  unfold saveObjectFS at h ⊢
+  split
+  · rfl
+  · rename_i cs ret heq
+    simp [heq] at h
+
+theorem beq_tooDeep (x : SaveOut) : (x == SaveOut.tooDeep) = true ↔ x = SaveOut.tooDeep := by
+  cases x with
+  | ok t => exact ⟨fun h => Bool.noConfusion h, fun h => SaveOut.noConfusion h⟩
+  | tooDeep => exact ⟨fun _ => rfl, fun _ => rfl⟩
+  | crash => exact ⟨fun h => Bool.noConfusion h, fun h => SaveOut.noConfusion h⟩
+
+/-- ... and it is raised exactly when some non-static variable is nested deeper than MAX_SAVE_SVALUE_DEPTH -/
+theorem saveObject_error_iff_too_deep (F : FloatOps α) (prog : List Byte) (z : Bool) (vars : List (Var α))
+    (fail : Option Nat) (fs : FS) :
+    (saveObjectFS F prog z vars fail fs).2 = none ↔
+      ∃ v ∈ vars, v.isStatic = false ∧ saveVariable F v.val = SaveOut.tooDeep := by
+  unfold saveObjectFS saveObjectScript
+  by_cases hany : (vars.any (fun v => !v.isStatic && (saveVariable F v.val == .tooDeep))) = true
+  · simp only [hany, if_true, true_iff]
+    rw [List.any_eq_true] at hany
+    obtain ⟨v, hv, hc⟩ := hany
+    simp only [Bool.and_eq_true, Bool.not_eq_true'] at hc
+    exact ⟨v, hv, hc.1, (beq_tooDeep _).1 hc.2⟩
+  · simp only [hany, Bool.false_eq_true, if_false]
+    constructor
+    · intro h; simp at h
+    · rintro ⟨v, hv, hs, hd⟩
+      exfalso
+      apply hany
+      rw [List.any_eq_true]
+      exact ⟨v, hv, by simp only [hs, Bool.not_false, Bool.true_and]; exact (beq_tooDeep _).2 hd⟩
 
 /-! ## 7, 8. static variables -/
 
